@@ -1505,11 +1505,13 @@ def create_pipes(net, from_junctions, to_junctions, std_type, length_km,
 
     if isinstance(std_type, Iterable) and not isinstance(std_type, str):
         pipe_parameters = {"inner_diameter_mm": [], "outer_diameter_mm": [], "k_mm": [], "u_w_per_m2k": []}
+        # the (deprecated) overrides are popped from kwargs by the first check: read them once for all pipes
+        u = _deprecation_check_u(kwargs)
+        k_override = kwargs.pop("k_mm") if "k_mm" in kwargs else None
         for s in std_type:
             _check_std_type(net, s, "pipe", "create_pipes")
             params = retrieve_u(load_std_type(net, s, "pipe"))
-            u = _deprecation_check_u(kwargs)
-            k = _deprecation_check_k(kwargs, params)
+            k = k_override if k_override is not None else _deprecation_check_k(kwargs, params)
             pipe_parameters["u_w_per_m2k"] += [u if u is not None else params["u_w_per_m2k"]]
             pipe_parameters["k_mm"] += [k if k is not None else params["k_mm"]]
             pipe_parameters["inner_diameter_mm"] += [params["inner_diameter_mm"]]
